@@ -23,7 +23,7 @@ func (c08) Meta(tier string) engine.Meta {
 	return engine.Meta{
 		Level: "model_checking",
 		Rule: "operator tables: two infix symbols (+ *) × {left, right, non-assoc} × binding power {3, 3.5, 4}, one prefix (~) and one postfix (!) symbol (quick: 81 tables with fixed prefix / postfix powers 3.75 / 3.25; thorough: prefix ∈ {3.25,3.75,10} × postfix ∈ {3.25,3.75,11} = 729 tables), the same 81 shapes at three other magnitudes of binding power (33…1000, 10^6…3·10^7, 0.0001…0.5), plus the built-in table, a table of identifier-like operators and a literal-forms table. For every table ALL token sequences up to the length bound over the family's alphabet are lexed and parsed by the real lexer + parser and by the reference (hand-written scanner + shunting-yard operator-precedence parser): accept / reject must agree, the trees must be identical, and every node's recorded span (rune range, line, column) must equal the span of the tokens it was built from; one family separates tokens by newlines so that lines and columns vary. A case is (family, table, first tokens); its run enumerates every suffix. non-trivial = every case (thousands of sequences each)",
-		Bound: "sequences: full alphabet (13 symbols) length <= 5; operator-only and ternary alphabets (5 symbols) length <= 7 (thorough 9); built-in table (15 symbols) length <= 5; literal forms (9 symbols) length <= 6 (thorough 7)",
+		Bound: "sequences: full alphabet (13 symbols) length <= 5; operator-only, ternary and parenthesis alphabets (5 symbols) length <= 7 (thorough 9); built-in comparison / parenthesis alphabet (7 symbols) length <= 7; built-in table (15 symbols) length <= 5; literal forms (9 symbols) length <= 6 (thorough 7)",
 		Assumptions: []string{"precedence semantics: an operator binds an operand while its left power exceeds the right power of what is open to its left; right-associative operators and ?: use the largest power below their own on the right; punctuation, call '(' 12, member '.' and subscript '[' 13, '?' 2 are fixed forms (parser/factory.go)"},
 	}
 }
@@ -84,6 +84,25 @@ func oneTable(ops []ref.Op) func(string) [][]ref.Op {
 	return func(string) [][]ref.Op { return [][]ref.Op{ops} }
 }
 
+// parenTables: parentheses interact with associativity only where an operator is non-associative
+// (quick: the 45 tables with at least one non-associative symbol; thorough: all 81).
+func parenTables(tier string) [][]ref.Op {
+	all := abTables("quick")
+	if tier == "thorough" {
+		return all
+	}
+	var out [][]ref.Op
+	for _, t := range all {
+		for _, o := range t {
+			if o.Fixity == "infixn" {
+				out = append(out, t)
+				break
+			}
+		}
+	}
+	return out
+}
+
 func c08Families() []c08Family {
 	lenOps := func(tier string) int {
 		if tier == "thorough" {
@@ -95,6 +114,8 @@ func c08Families() []c08Family {
 		{"seq", []string{"a", "+", "*", "~", "!", "(", ")", "?", ":", ".", "[", "]", ","}, abTables, 2, func(string) int { return 3 }, " "},
 		{"ops", []string{"a", "+", "*", "~", "!"}, abTables, 3, lenOps, " "},
 		{"tern", []string{"a", "+", "*", "?", ":"}, abTables, 3, lenOps, " "},
+		{"paren", []string{"a", "+", "*", "(", ")"}, parenTables, 3, lenOps, " "},
+		{"builtin-paren", []string{"a", "1", "==", "<", "+", "(", ")"}, func(string) [][]ref.Op { return [][]ref.Op{real.BuiltInOps()} }, 2, func(string) int { return 5 }, " "},
 		{"ops-big", []string{"a", "+", "*", "~", "!"}, scaledTables([]float64{33, 40.5, 1000}, 36, 34), 3, func(string) int { return 3 }, " "},
 		{"ops-huge", []string{"a", "+", "*", "~", "!"}, scaledTables([]float64{1e6, 1e6 + 0.5, 3e7}, 2e6, 5e5), 3, func(string) int { return 3 }, " "},
 		{"ops-small", []string{"a", "+", "*", "~", "!"}, scaledTables([]float64{0.25, 0.5, 0.0001}, 0.3, 0.2), 3, func(string) int { return 3 }, " "},
